@@ -258,11 +258,47 @@ def vo_up_to_date(rel_v):
     return rc == 0
 
 
+_GEN_DIR = [None]
+
+
+def gen_dir():
+    """Directory of the files translated from the source on this run
+    (FsmTables.v, AccessSites.v and their obligations), one per source tree:
+    coq/gen/<tree hash>.  Runs against different trees (seeded changes checked
+    in parallel) therefore never see each other's translation; runs against the
+    same tree share it (write_if_changed + a lock per file)."""
+    if _GEN_DIR[0] is None:
+        d = os.path.join(COQ, "gen", tree_hash())
+        os.makedirs(d, exist_ok=True)
+        _sweep_gen(os.path.join(COQ, "gen"), keep=d)
+        _GEN_DIR[0] = d
+    return _GEN_DIR[0]
+
+
+def _sweep_gen(base, keep, max_age=6 * 3600):
+    now = time.time()
+    try:
+        for fn in os.listdir(base):
+            p = os.path.join(base, fn)
+            if p == keep:
+                continue
+            try:
+                if now - os.path.getmtime(p) > max_age:
+                    if os.path.isdir(p):
+                        shutil.rmtree(p, ignore_errors=True)
+                    else:
+                        os.remove(p)
+            except OSError:
+                pass
+    except OSError:
+        pass
+
+
 def coqc(path, timeout=600, extra_q=()):
-    """Compile one per-run file (in coq/gen or coq/cases) against the built
-    library.  Returns (rc, output)."""
+    """Compile one per-run file (in coq/gen/<tree> or coq/cases) against the
+    built library.  Returns (rc, output)."""
     cmd = ["coqc", "-Q", os.path.join(COQ, "theories"), "Shk",
-           "-Q", os.path.join(COQ, "gen"), "ShkGen",
+           "-Q", gen_dir(), "ShkGen",
            "-w", "-notation-overridden,-deprecated-hint-without-locality"]
     cmd += list(extra_q) + [path]
     return run(cmd, cwd=os.path.dirname(path), timeout=timeout)
@@ -286,7 +322,7 @@ def print_assumptions(pid, module, theorems, tag=""):
     that does not exist / does not compile; plus raw output."""
     d = os.path.join(COQ, "cases")
     os.makedirs(d, exist_ok=True)
-    path = os.path.join(d, "Assum_%s%s.v" % (pid, tag))
+    path = os.path.join(d, "Assum_%s%s_p%d.v" % (pid, tag, os.getpid()))
     lines = ["Require Import Shk.Properties.%s." % module]
     for t in theorems:
         lines.append('Goal True. idtac "@@BEGIN %s". Abort.' % t)
@@ -295,6 +331,15 @@ def print_assumptions(pid, module, theorems, tag=""):
     with open(path, "w") as f:
         f.write("\n".join(lines) + "\n")
     rc, out = coqc(path, timeout=300)
+    for ext in (".v", ".vo", ".glob", ".vok", ".vos"):
+        try:
+            os.remove(path[:-2] + ext)
+        except OSError:
+            pass
+    try:
+        os.remove(os.path.join(d, "." + os.path.basename(path)[:-2] + ".aux"))
+    except OSError:
+        pass
     res = {}
     for t in theorems:
         m = re.search(r"@@BEGIN %s\n(.*?)@@END %s" % (re.escape(t), re.escape(t)), out, re.S)
